@@ -26,6 +26,7 @@ structure PState where
       environment's choice (C09's theorems hold for EVERY cache state at lookup and in mid-flight); only the
       cache-independent predicates are judged and the model's cache is not compared -/
   pressure : Bool := false
+  cutNext : Option Nat := none   -- resource whose next exchange cannot be completed (both origin transfers are cut)
 
 def nat (x : String) : Nat := x.toNat?.getD 0
 def int (x : String) : Int := x.toInt?.getD 0
@@ -222,9 +223,12 @@ def step (ps : PState) (fs : List String) (obs : String) : PState × String × S
       let ver := nat ((((body.splitOn ":").headD "").drop 1).toString)
       let v :=
         if obs.startsWith "panic" then "bad:panic"
+        else if ps.cutNext = some res && obs.startsWith "NORESPONSE" then "ok"   -- connection cut before anything was flushed
         else if obs.startsWith "NORESPONSE" then "bad:request-left-without-response"
         else if obs.startsWith "HANG" then "bad:request-does-not-complete"
         else if (body.splitOn "CORRUPT").length > 1 then "bad:body-bytes-differ-from-origin-body"
+        else if ps.cutNext = some res && (obs.splitOn "bodyerr=").length > 1 then "ok"   -- the incomplete transfer is signalled as such
+        else if ps.cutNext = some res && (st = 502 || st = 500) then "ok"
         else if (obs.splitOn "bodyerr=").length > 1 then "bad:body-truncated-or-connection-dropped"
         else if (st = 502 || st = 500) && (match tf res with | some o => o.status < 400 | none => false) then "bad:good-origin-answer-turned-into-error"
         else if body.startsWith "v" && !(ps.served.any (fun x => x.1 = res && x.2.1 = ver)) then "bad:body-of-unknown-version-or-other-resource"
@@ -232,7 +236,7 @@ def step (ps : PState) (fs : List String) (obs : String) : PState × String × S
             !(ps.served.any (fun x => x.1 = res && x.2.1 = ver && body = s!"v{ver}:0:{x.2.2}:ok")) then "bad:body-truncated-or-extended"
         else if upI = "" && (between obs "xc=" " ") ≠ "HIT" && st = 200 then "bad:miss-label-without-origin-contact"
         else "ok"
-      ({ ps with now := ps.now + 1 }, obs, v)
+      ({ ps with now := ps.now + 1, cutNext := if ps.cutNext = some res then none else ps.cutNext }, obs, v)
     else
     match fs with
     | ["px", "req", id, method, rng, ifr, _cond, hs, q, body] =>
@@ -327,6 +331,10 @@ def step (ps : PState) (fs : List String) (obs : String) : PState × String × S
       else if log.isEmpty then ps.renewed else ps.renewed.filter (· ≠ (res, r.query))
     ({ ps with cache := cache', now := now, armed := armed', renewed := renewed' }, m, v1)
     | _ => (ps, "bad-op", "bad:bad-op")
+  | ["px", "abort2", id, _k, _ch] =>
+    -- BOTH transfers of the next exchange for this resource fail part-way: the client cannot be given the whole body.
+    -- It must be able to tell: a cut connection (`bodyerr=`), or an error status - never a complete-looking short 200.
+    ({ ps with pressure := true, cutNext := some (nat id) }, "armed", "ok")
   | ["px", "abort", _id, _k] =>
     -- the next origin transfer for the resource fails part-way (full Content-Length, a prefix of the body, EOF):
     -- whether the partial write reached the store is the cache's business; from here on the trace is judged with the
